@@ -315,9 +315,50 @@ def gen_targeted(rng: random.Random) -> dict:
     return {"nodes": nodes, "how": how, "qs": qs}
 
 
+def gen_lookalike_union(rng: random.Random) -> dict:
+    """Union (and concatenation) of two DIFFERENT sets that the approximate BitLengthSet equality cannot tell apart
+    (same min, max and residues modulo 32): nothing may be merged or dropped on the strength of `==` / hash."""
+    lo = rng.choice([0, 8, 16, 3])
+    span = 32 * rng.randint(2, 5)
+    a = [lo, lo + span]
+    extra = sorted({lo + 32 * rng.randint(1, span // 32 - 1) for _ in range(rng.randint(1, 2))} | ({lo + 16, lo + 16 + 32} if rng.random() < 0.3 else set()))
+    b = sorted(set(a) | set(extra))
+    if rng.random() < 0.3:  # both with the extra residue class so that the keys still coincide
+        a = sorted(set(a) | {lo + 16}) if (lo + 16) in b else a
+    nodes: typing.List[list] = [["leaf", a], ["leaf", b]]
+    how = ["set", "set"]
+    order = [0, 1] if rng.random() < 0.7 else [1, 0]
+    if rng.random() < 0.4:
+        nodes.append(["rrep", 1, 1])  # the same set again, built symbolically: {0} | b ... keep it simple: repeat_range(1) adds 0
+        how.append("rrep")
+    nodes.append(["uni", order])
+    how.append(rng.choice(["op", "static"]))
+    u = len(nodes) - 1
+    if rng.random() < 0.5:
+        nodes.append(["rep", u, rng.choice([2, 3, 2**63])])
+        how.append("rep")
+    top = len(nodes) - 1
+    qs: typing.List[list] = []
+    memo: dict = {}
+    for i in {u, top}:
+        for d in (64, rng.choice([3, 5, 7, 48, 96, 128])):
+            if _cost(nodes, i, d, memo) <= MOD_BUDGET:
+                qs.append([rng.choice(["mod", "mod", "aligned"]), i, d])
+        if expand_cost(nodes, i, {}) <= EXPAND_BUDGET and o_den(nodes, i, 400, {}) is not None:
+            qs.append([rng.choice(["expand", "len"]), i])
+        qs.append(["max", i])
+    rng.shuffle(qs)
+    return {"nodes": nodes, "how": how, "qs": qs}
+
+
 def gen_case(rng: random.Random, prop: str) -> dict:
-    if rng.random() < 0.3:
+    x = rng.random()
+    if x < 0.3:
         c = gen_targeted(rng)
+        if c["qs"]:
+            return c
+    elif x < 0.38:
+        c = gen_lookalike_union(rng)
         if c["qs"]:
             return c
     nodes: typing.List[list] = []
